@@ -6,6 +6,8 @@
 //        [maxit=<int>] [width=<double>] [ts=<int>] [speg=<0|1>] [spen=<int>] [spetol=<double>]
 //        [fae=<double>] [cc=<0|1>] [nshift=<double>] [kshift=<double>]
 //        [unset=<comma list of d,k,nm,em>]   keywords NOT passed (the library default is used)
+//        [stack=<KiB>]  the call is made on a thread whose stack has this size (serial mode only): recursion whose
+//                    depth grows with N overflows it
 //        [par=<T>]   the call is made from INSIDE an `omp parallel num_threads(T)` region of the
 //                    application, once per thread (same request, private output)
 //   X <N*D doubles, sample-major (sample 0 first)>
@@ -31,6 +33,7 @@
 #include <iostream>
 #include <map>
 #include <omp.h>
+#include <pthread.h>
 #include <sstream>
 #include <string>
 #include <unistd.h>
@@ -162,6 +165,26 @@ static std::string call_embed(std::vector<IndexType>& idx, eigen_kernel_callback
     {
         return "UNDOC unknown";
     }
+}
+
+struct small_stack_args
+{
+    std::vector<IndexType>* idx;
+    eigen_kernel_callback* kcb;
+    eigen_distance_callback* dcb;
+    eigen_features_callback* fcb;
+    const ParametersSet* ps;
+    const DimensionReductionMethod* m;
+    const DenseMatrix* X;
+    int N, D;
+    std::string result;
+};
+
+static void* small_stack_main(void* p)
+{
+    small_stack_args* a = static_cast<small_stack_args*>(p);
+    a->result = call_embed(*a->idx, *a->kcb, *a->dcb, *a->fcb, *a->ps, *a->m, *a->X, a->N, a->D);
+    return nullptr;
 }
 
 int main()
@@ -330,7 +353,23 @@ int main()
                 // find_neighbors itself threw: no NB line, embed() below reports the same exception
             }
             const int par = kv.count("par") ? atoi(kv["par"].c_str()) : 0;
-            if (par <= 0)
+            const long stack_kib = kv.count("stack") ? atol(kv["stack"].c_str()) : 0;
+            if (par <= 0 && stack_kib > 0)
+            {
+                small_stack_args a = {&idx, &kcb, &dcb, &fcb, &ps, m, &X, N, D, std::string()};
+                pthread_attr_t attr;
+                pthread_attr_init(&attr);
+                pthread_attr_setstacksize(&attr, (size_t)stack_kib * 1024);
+                pthread_t th;
+                if (pthread_create(&th, &attr, small_stack_main, &a) != 0)
+                    a.result = "BADCASE pthread_create";
+                else
+                    pthread_join(th, nullptr);
+                pthread_attr_destroy(&attr);
+                alarm(0);
+                printf("R %ld %s\n", id, a.result.c_str());
+            }
+            else if (par <= 0)
             {
                 std::string r = call_embed(idx, kcb, dcb, fcb, ps, *m, X, N, D);
                 alarm(0);
